@@ -541,7 +541,9 @@ def native_check(e3, oracle, violation, skel_like=None):
     post2 = astio.read_program(r['post_twice']) if 'post_twice' in r else None
     env = Env(pre, post, cctx.diags, opts, cctx, skel_like, {'post2': post2, 'alt_pres': alt_pres, 'alt_posts': alt_posts, 'resp': r, 'comments': world.comments_map(r), 'code': r.get('code'), 'reparse_ok': r.get('reparse_ok'),
                                                              'posts': posts, 'diags_all': diags_all, 'codes': codes,
-                                                             'rerun': (lambda: e3.run(violation['source'], violation['options'], violation.get('tsx', False)).get('code')),
+                                                             'rerun': (lambda ov=None, prelude=None: e3.run(violation['source'], dict(violation['options'], **(ov or {})), violation.get('tsx', False),
+                                                                                                              prelude=[{'src': violation['source'], 'tsx': violation.get('tsx', False), 'options': dict(violation['options'], **p)} for p in (prelude or [])]).get('code')),
+                                                             'json_options': dict(violation['options']),
                                                              'variants': [{world.RUST.get(k, k): v for k, v in ov.items()} for ov in (violation.get('variants') or [])]})
     try:
         obs = oracle(env)
